@@ -61,7 +61,7 @@ def pick(agg, *names):
 
 # ----------------------------------------------------------------------------- Resource (C01 C02 C03 C12)
 
-def rw_jobs(prop, stress_runs, patterns, stress_args=(), pattern_args=(), variants=('mon',), ops=12000, stress_par=6):
+def rw_jobs(prop, stress_runs, patterns, stress_args=(), pattern_args=(), variants=('mon',), ops=12000, stress_par=6, marathons=(0, 0)):
     def mk(tier, seed):
         q = tier == 'quick'
         jobs = []
@@ -75,6 +75,11 @@ def rw_jobs(prop, stress_runs, patterns, stress_args=(), pattern_args=(), varian
             for frm, cnt in split(n_p, 6 if q else 8):
                 jobs.append(Job('h_rwlock', variant, pseed(seed, prop, 50 + vi), frm, cnt,
                                 ['mode=pattern'] + list(pattern_args), label='pattern'))
+            # one uninterrupted busy period of more than 2^16 queued requests per case (whatever the lock counts per busy period keeps growing)
+            n_m = marathons[0 if q else 1]
+            for frm, cnt in split(n_m, 2 if q else 8):
+                if cnt:
+                    jobs.append(Job('h_rwlock', variant, pseed(seed, prop, 90 + vi), frm, cnt, ['mode=marathon', 'marathon=130000'], label='marathon'))
         return jobs
     return mk
 
@@ -82,7 +87,7 @@ def rw_jobs(prop, stress_runs, patterns, stress_args=(), pattern_args=(), varian
 RW_FIELDS = ('runs', 'patterns', 'sections', 'reads', 'writes', 'parks', 'maxReaders', 'batches2', 'windowHits',
              'idleAsleepHits', 'runsWithHit', 'pairsLive', 'pairsWW', 'pairsWR', 'pairsRW', 'maxQueue', 'idleProbes',
              'readersNoWriter', 'readerParksJudged', 'rendezvous', 'rendezvousReaders', 'predictedParks',
-             'predictedFast', 'lateArrivalPatterns', 'lateArrivals', 'sectionsNestedInOtherResource', 'recursiveReadLocks', 'queuesDeeperThan64', 'delaysAfterWake', 'delaysCondEntry', 'delaysOther', 'condWaits')
+             'predictedFast', 'lateArrivalPatterns', 'lateArrivals', 'sectionsNestedInOtherResource', 'recursiveReadLocks', 'queuesDeeperThan64', 'readerCrowdsOver255', 'marathonRequests', 'marathonReleasesWithQueue', 'delaysAfterWake', 'delaysCondEntry', 'delaysOther', 'condWaits')
 
 
 def rw_evidence(rule):
@@ -97,7 +102,7 @@ RW_ASSUME = ['stamps come from one seq_cst counter; a stamp taken before P and o
 
 SPECS['C01'] = dict(
     title='Resource: a writer never shares the lock',
-    jobs=rw_jobs('C01', (40, 1200), (1200, 40000), variants=('mon', 'mon-ndebug', 'asan')),
+    jobs=rw_jobs('C01', (40, 1200), (1200, 40000), variants=('mon', 'mon-ndebug', 'asan'), marathons=(2, 64)),
     require={'any': {'windowHits': 50, 'sections': 50000, 'parks': 5000}},
     evidence=rw_evidence('case = one stress run (2-32 threads, seeded read/write sections, raw calls and guards, delay profile, CPU pinning) '
                          'or one scripted arrival pattern; every section entry is checked against a packed occupancy word and a two-word data '
@@ -108,7 +113,7 @@ SPECS['C01'] = dict(
 
 SPECS['C02'] = dict(
     title='Resource: every request is eventually granted',
-    jobs=rw_jobs('C02', (30, 1200), (900, 40000), variants=('mon', 'mon-ndebug')),
+    jobs=rw_jobs('C02', (30, 1200), (900, 40000), variants=('mon', 'mon-ndebug'), marathons=(2, 64)),
     require={'any': {'idleAsleepHits': 50, 'idleProbes': 100, 'parks': 5000}},
     evidence=rw_evidence('same executions as C01; deciding monitors: quiescence oracle (all threads in kernel state S inside '
                          'cond_wait/join/mutex_lock, no synchronisation event for 5 samples = nothing can ever run again) and an idle '
@@ -119,7 +124,7 @@ SPECS['C02'] = dict(
 
 SPECS['C03'] = dict(
     title='Resource: FIFO fairness',
-    jobs=rw_jobs('C03', (16, 600), (2400, 100000), variants=('mon', 'mon-ndebug')),
+    jobs=rw_jobs('C03', (16, 600), (2400, 100000), variants=('mon', 'mon-ndebug'), marathons=(2, 64)),
     require={'any': {'pairsLive': 5000, 'pairsWW': 100, 'pairsWR': 100, 'pairsRW': 100, 'patterns': 252, 'lateArrivalPatterns': 300}},
     evidence=rw_evidence('scripted arrival patterns (initial holder R/W, every arrival word over {R,W} of length 1..6 enumerated = 252, then '
                          'seeded words of length 7..10; each arrival is started only after the previous one is observed parked or granted; in ~30% of the patterns one request of the '
@@ -568,7 +573,7 @@ SPECS['C11'] = dict(
         'distinct = fingerprints of the order of operation returns',
         samples, observed=pick(agg, 'histories', 'ops', 'notifies', 'notifiesWithCallbacks', 'callbacks', 'subscribes', 'unsubscribes', 'shrinks', 'existsCalls', 'depthCalls', 'writesOverlappingNotify',
                                'snapshotsJudged', 'snapshotsWithConcurrentWrite', 'missedObserversJudged', 'maxThreads', 'delaysInjected', 'lockParks',
-                               'linHistories', 'linOperations', 'linSearchNodes', 'linInconclusive', 'linHistoriesWithOverlap', 'fastChurnCases', 'fastChurnOperations')),
+                               'linHistories', 'linOperations', 'linSearchNodes', 'linInconclusive', 'linHistoriesWithOverlap', 'fastChurnCases', 'fastChurnOperations', 'deliveriesEndedByException')),
     assumptions=['mute/unmute and in-callback invalidation are excluded: the quantifier does not list them and they bypass the lock by design', 'callbacks do not call back into the router',
                  'large histories: every rule is a necessary condition of linearizability (such a check can miss non-linearizable histories that satisfy all four rules); small histories: complete search, the sequential SubjectRouter is the specification'],
     manifest=dict(engine='h_crouter', text='Offline checker over stamped call/return/callback events of real multi-threaded histories: four necessary conditions of linearizability decided exactly per notify '
